@@ -46,9 +46,12 @@ EVENT FORMAT (tuples; first entry is the kind)
         step of a block all_dt = [S.dt for all steps of the controller]
         (info is not part of the Coq-compared code); pre_comm/post_comm/pre_run/post_run/... are recorded
         with kind 'aux' and never compared
-  ('predict', slot, level) ('sweep', slot, level) ('resid', slot, level, stage) ('endpt', slot, level)
-  ('send', slot, level, tag)                     tag = (level, iter, slot) as written by the code
-  ('recv', slot, level, expected_tag, found_tag) found_tag None when the source level carries no tag
+  ('predict', slot, level) ('sweep', slot, level, u0) ('resid', slot, level, stage, u0) ('endpt', slot, level, uend)
+        u0 / uend = float value of level.u[0] at the call / of level.uend after the call (data tokens, not Coq-compared)
+  ('send', slot, level, tag)                     tag = (level, iter, slot) as written by the code; always followed by
+                                                 the 'endpt' event of the payload computed by the send
+  ('recv', slot, level, expected_tag, found_tag, payload) found_tag None when the source level carries no tag;
+                                                 payload = float value of source.uend that the receive copies
   ('transfer', slot, src_level, dst_level)
 `slot` is S.status.slot of the step owning the object, `level` the level index.
 """
@@ -158,20 +161,21 @@ class ScriptedSweeper(generic_implicit):
     def update_nodes(self):
         if CTX.on:
             S, l = _who(self.level)
-            CTX.events.append(('sweep', S.status.slot, l))
+            CTX.events.append(('sweep', S.status.slot, l, _val(self.level.u[0])))
         return super().update_nodes()
 
     def compute_end_point(self):
-        if CTX.on:
+        r = super().compute_end_point()
+        if CTX.on:   # recorded after the computation so that the event carries the value (nothing else is recorded inside)
             S, l = _who(self.level)
-            CTX.events.append(('endpt', S.status.slot, l))
-        return super().compute_end_point()
+            CTX.events.append(('endpt', S.status.slot, l, _val(self.level.uend)))
+        return r
 
     def compute_residual(self, stage=''):
         super().compute_residual(stage=stage)
         if CTX.on:
             S, l = _who(self.level)
-            CTX.events.append(('resid', S.status.slot, l, stage))
+            CTX.events.append(('resid', S.status.slot, l, stage, _val(self.level.u[0])))
             self.level.status.residual = CTX.script.residual(CTX.block, S.status.slot, S.status.iter, l, stage)
         return None
 
@@ -334,7 +338,8 @@ def install_observer(controller_class=controller_nonMPI):
                 CTX.events.append(('send', S.status.slot, l, _tag(loc['tag'])))
             elif code is recv_code:
                 S, l = _who(loc['target'])
-                CTX.events.append(('recv', S.status.slot, l, _tag(loc['tag']), _tag(loc['source'].tag)))
+                CTX.events.append(('recv', S.status.slot, l, _tag(loc['tag']), _tag(loc['source'].tag),
+                                   _val(loc['source'].uend)))
             elif code is tr_code:
                 S, ls = _who(loc['source'])
                 _, lt = _who(loc['target'])
@@ -465,7 +470,7 @@ def event_fields(e):
         _, slot, level, tag = e
         return [6, slot, level, tag[0], tag[1], tag[2]]
     if k == 'recv':
-        _, slot, level, tag, found = e
+        slot, level, tag, found = e[1], e[2], e[3], e[4]
         ft = [0, 0, 0, 0] if found is None else [1, found[0], found[1], found[2]]
         return [7, slot, level, tag[0], tag[1], tag[2]] + ft
     if k == 'transfer':
